@@ -483,8 +483,18 @@ func relations() {
 		}
 	}
 	run.Extra["relation_inputs"] = len(inputs)
+	// near-misses of the output form: the text format prints, decorated with blanks around it (only a difference in
+	// the final newlines is "no change"; see NearMisses in CliVerdict.tla)
+	decorate := func(canon string) []string {
+		body := strings.TrimRight(canon, "\n")
+		return []string{"\n\n" + body + "\n", "   " + body + "\n", body + "   \n", body + "\n\t\n", body + "\r\n", " \t" + body + " \n\n", body + "\n\n\n"}
+	}
+	nearMisses := 0
+	defer func() { run.Extra["relation_near_miss_inputs"] = nearMisses }()
 	for _, fl := range flagSets {
-		for _, in := range inputs {
+		queue := append([]string{}, inputs...)
+		for qi := 0; qi < len(queue); qi++ {
+			in := queue[qi]
 			d := scratch(map[string]string{"f.sql": in, "g.sql": in})
 			pr := cli.Run(cli.Opts{Bin: bin, Dir: d, Args: append(append([]string{"format"}, fl...), "f.sql"), Fsize: -1})
 			wr := cli.Run(cli.Opts{Bin: bin, Dir: d, Args: append(append([]string{"format", "-i"}, fl...), "g.sql"), Fsize: -1})
@@ -492,6 +502,10 @@ func relations() {
 			run.Nontrivial("rel" + core.JSON(fl) + in)
 			if pr.Exit != 0 || wr.Exit != 0 {
 				continue // not an accepted input for this binary: nothing to relate
+			}
+			if qi < 5 {
+				queue = append(queue, decorate(pr.Stdout)...)
+				nearMisses += 7
 			}
 			written, _ := os.ReadFile(filepath.Join(d, "g.sql"))
 			c := map[string]any{"kind": "relation", "flags": fl, "input": in}
